@@ -1316,6 +1316,36 @@ def r_inline_closure(body, spec, where):
         raise AnchorLost("%s: closure `%s` is never called" % (where, name))
     return body, [("R-inlineclosure", "let %s = |%s| {..}; %d calls" % (name, param, n), "{ let %s = ARG; {..} } at each call" % param)]
 
+
+def r_abstract_block(body, spec, where):
+    """R-cutblock: the block that follows `anchor` (the then-block of an `if`, a match arm's block, ...) is NOT brought to the verifier: its
+    content is replaced by `stub` (a `return` of a call to a contract-less stand-in whose only postcondition is the marker `unverified_path()`).
+    The function's contract is then proved for every path that does not enter the block, and says nothing (antecedent `!unverified_path()`) for
+    the ones that do.  The log records how many lines were cut."""
+    m = code_mask(body)
+    anchor = spec["anchor"]
+    rx = re.compile(r"\s*".join(re.escape(p) for p in anchor.split()))
+    hits = [x for x in rx.finditer(body) if m[x.start()]]
+    if len(hits) != 1:
+        raise AnchorLost("%s: cut-block anchor matched %d times (expected 1): %s" % (where, len(hits), anchor))
+    k = hits[0].end()
+    d = 0
+    while True:
+        if m[k]:
+            ch = body[k]
+            if ch in "([":
+                d += 1
+            elif ch in ")]":
+                d -= 1
+            elif ch == "{" and d == 0:
+                break
+        k += 1
+    e = match_close(body, m, k)
+    cut = body[k + 1:e]
+    n = cut.count("\n")
+    body = body[:k + 1] + " /* %d lines not under contract (R-cutblock) */ %s " % (n, spec["stub"]) + body[e:]
+    return body, [("R-cutblock", "block after `%s`: %d lines" % (anchor, n), spec["stub"])]
+
 def emit_fn(f, udir, unit_props, recs, log_global):
     """returns (emit_impl_header, text) for one [[fn]] entry."""
     if "from_unit" in f:
@@ -1456,6 +1486,9 @@ def emit_fn(f, udir, unit_props, recs, log_global):
         text = "#[verifier::external_body]\n" + splice_sig(sig, f.get("ret", "r"), f.get("requires", []), f.get("ensures", []), f.get("sig_extra")) + "{ unimplemented!() }\n"
     else:
         # order: textual substitutions first (they anchor on the original text), then general rules
+        for ab in f.get("cut_blocks", []):
+            body, l = r_abstract_block(body, ab, where)
+            log += l
         for ic in f.get("inline_closures", []):
             body, l = r_inline_closure(body, ic, where)
             log += l
